@@ -9,6 +9,7 @@ import (
 	"github.com/ethereum/go-ethereum/common"
 	"github.com/ethereum/go-ethereum/core/rawdb"
 	"github.com/ethereum/go-ethereum/core/types"
+	"verif.local/kit/reftrie"
 )
 
 func TestVerifC16Scratch(t *testing.T) {
@@ -32,7 +33,7 @@ func TestVerifC16Scratch(t *testing.T) {
 		ref := w.RefNodes(root)
 		ok, bad := 0, 0
 		for p, b := range ref.Account {
-			got, err := nr.Node(common.Hash{}, []byte(p), common.Hash(crypto256(b)))
+			got, err := nr.Node(common.Hash{}, []byte(p), common.Hash(reftrie.Keccak256(b)))
 			if err != nil {
 				bad++
 				fmt.Printf("  node %x path %x: %v\n", root[:4], p, err)
@@ -72,6 +73,3 @@ func TestVerifC16Scratch(t *testing.T) {
 	}
 }
 
-func crypto256(b []byte) [32]byte {
-	return [32]byte(types.EmptyRootHash) // placeholder replaced below
-}
